@@ -24,7 +24,7 @@ mod rng;
 
 use std::collections::BTreeMap;
 use std::fmt::Write as _;
-use std::sync::{Arc, Mutex};
+use std::sync::{Arc, Mutex, OnceLock};
 use std::time::Duration;
 
 use deadpool_redis::redis::aio::MultiplexedConnection;
@@ -53,6 +53,21 @@ struct World {
 }
 
 type Sh = Arc<Mutex<World>>;
+
+/// One listening socket per process: every case accepts on a clone of it. Together with SO_LINGER 0
+/// on the server's side of every connection (a hang-up is a reset) this keeps long runs from
+/// filling the loopback interface with TIME_WAIT sockets.
+static LISTENER: OnceLock<std::net::TcpListener> = OnceLock::new();
+
+fn listener() -> (TcpListener, std::net::SocketAddr) {
+    let l = LISTENER.get_or_init(|| {
+        let l = std::net::TcpListener::bind("127.0.0.1:0").expect("bind 127.0.0.1:0");
+        l.set_nonblocking(true).unwrap();
+        l
+    });
+    let addr = l.local_addr().unwrap();
+    (TcpListener::from_std(l.try_clone().unwrap()).unwrap(), addr)
+}
 
 // ------------------------------------------------------------------ RESP2 server
 /// one complete `*N $len arg ...` command from the front of `acc`, if there is one
@@ -177,6 +192,8 @@ async fn accept_loop(l: TcpListener, sh: Sh) {
             Err(_) => return,
         };
         let _ = s.set_nodelay(true);
+        #[allow(deprecated)]
+        let _ = s.set_linger(Some(Duration::ZERO));
         let kill = Arc::new(Notify::new());
         let (id, refuse) = {
             let mut w = sh.lock().unwrap();
@@ -204,8 +221,7 @@ struct Case {
 impl Case {
     async fn new(cfg: &[i64]) -> Case {
         let sh: Sh = Default::default();
-        let l = TcpListener::bind("127.0.0.1:0").await.unwrap();
-        let addr = l.local_addr().unwrap();
+        let (l, addr) = listener();
         drop(tokio::spawn(accept_loop(l, sh.clone())));
         let mut c = Config::from_url(format!("redis://{}", addr));
         c.pool = Some(PoolConfig::new(cfg[0] as usize));
@@ -215,6 +231,17 @@ impl Case {
 
     fn anomaly(&self, code: i64) {
         self.sh.lock().unwrap().anomalies.push(code);
+    }
+
+    /// end of a case: the server resets every connection before the clients are dropped
+    async fn shutdown(&mut self) {
+        let kills: Vec<Arc<Notify>> = self.sh.lock().unwrap().conns.iter().map(|c| c.kill.clone()).collect();
+        for k in kills {
+            k.notify_one();
+        }
+        for _ in 0..20 {
+            tokio::task::yield_now().await;
+        }
     }
 
     fn enabled(&self, l: &[i64]) -> bool {
@@ -407,6 +434,7 @@ fn gen_trace(rng: &mut Rng, profile: Profile, max_labels: usize) -> TraceOut {
             t.labels.push(l);
             t.obs.push(o);
         }
+        cs.shutdown().await;
     });
     t
 }
@@ -425,6 +453,7 @@ fn replay_trace(cfg: Vec<i64>, labels: &[Vec<i64>]) -> TraceOut {
             t.labels.push(l.clone());
             t.obs.push(o);
         }
+        cs.shutdown().await;
     });
     t
 }
